@@ -425,9 +425,10 @@ func runC12(env *lib.Env, rep *lib.Report) {
 	}
 	// --- leaves whose cells were rewritten by updateCell (the engine's UPDATE): every cell of leaves of 1..4 cells
 	// updated from every size to every size (shorter, equal, longer, empty, the maximum), one or two updates
+	updSizes := append(append([]int{}, sizes...), 30, 100, 150) // (moderate sizes too: a value that grows into the room of its neighbours)
 	for n := 1; n <= 4; n++ {
-		for _, from := range sizes {
-			for _, to := range sizes {
+		for _, from := range updSizes {
+			for _, to := range updSizes {
 				for pos := 0; pos < n; pos++ {
 					keys, sz, del := mk(n, 20)
 					for i := range sz {
@@ -445,6 +446,26 @@ func runC12(env *lib.Env, rep *lib.Report) {
 						panic(lib.HarnessError{Msg: "updateCell: " + err.Error()})
 					}
 					r.check(fmt.Sprintf("leaf n=%d all cells %d bytes, cell %d updated to %d then %d bytes", n, from, pos, to, (from+to)/2), node, true, true)
+					// the same update applied to the page as it comes back from the data file (what UPDATE after a
+					// restart or an eviction does): the values of a decoded page must not share storage
+					if buf, err := l.build().encode(); err == nil {
+						back := &btreeNode{isLeaf: true}
+						if err := back.decode(bytes.NewBuffer(append([]byte{}, buf.Bytes()...))); err == nil {
+							back.fileOffset = 8192
+							if err := back.updateCell(keys[pos], c12Value(to, 77)); err != nil {
+								panic(lib.HarnessError{Msg: "updateCell: " + err.Error()})
+							}
+							back.markDirty(4)
+							want := l.build()
+							want.updateCell(keys[pos], c12Value(to, 77))
+							want.markDirty(4)
+							if got, exp := c12Logical(back), c12Logical(want); got != exp {
+								rep.AddFailure(&lib.Failure{Kind: "update-after-decode", Detail: fmt.Sprintf("leaf n=%d all cells %d bytes, written, read back, cell %d updated to %d bytes: the page now is %s, the same update on the original node gives %s", n, from, pos, to, got, exp),
+									Trace: []string{"update-after-decode"}})
+							}
+							r.check(fmt.Sprintf("leaf n=%d all cells %d bytes, read back from its page, cell %d updated to %d bytes", n, from, pos, to), back, true, true)
+						}
+					}
 				}
 			}
 		}
